@@ -199,6 +199,18 @@ class ScriptedRunner(SimulationRunner):
         res.add_new_result("err", Result.RATIOTYPE, val, tot)
         res.add_new_result("last", Result.MISCTYPE, "m%d" % serial)
         res.add_result(Result.create("ch", Result.CHOICETYPE, serial % 3, 3))
+        hm = w.script.get("hist")
+        if hm:
+            # an ARRAY-valued sum result; "reused": the user program fills one preallocated buffer in every repetition
+            if hm == "reused":
+                buf = getattr(self, "_hist_buf", None)
+                if buf is None:
+                    buf = self._hist_buf = np.zeros(4, dtype=np.int64)
+                buf[:] = hist_vec(serial)
+                bump(w.probes, "array_result_from_a_reused_buffer")
+            else:
+                buf = np.array(hist_vec(serial), dtype=np.int64)
+            res.add_new_result("hist", Result.SUMTYPE, buf)
         w.seams.seam("cb:run:exit")
         return res
 
@@ -236,6 +248,14 @@ class ScriptedRunner(SimulationRunner):
             ids = "unreadable: %s" % type(e).__name__
         self.w.hook_log.append(("finish", max(0, current_params.unpack_index), self.w.drop_mut(canon_params(current_params.parameters)), ids))
         self.w.seams.seam("cb:params_finish")
+
+
+def hist_vec(serial):
+    return [serial, serial % 5, 1, (serial * serial) % 7]
+
+
+def hist_sum(ids):
+    return [sum(hist_vec(i)[j] for i in ids) for j in range(4)]
 
 
 # --------------------------------------------------------------------------
@@ -404,6 +424,8 @@ class World:
                 "errv": int(obj._results["err"][-1]._value), "errt": int(obj._results["err"][-1]._total),
                 "params": canon_params(obj._params.parameters), "index": int(obj._params._unpack_index),
             }
+            if "hist" in obj._results:
+                out["hist"] = [int(x) for x in np.asarray(obj._results["hist"][-1]._value).ravel()]
         except Exception as e:
             return {"state": "torn", "why": "%s: %s" % (type(e).__name__, e)}
         if expect_params is not None:
@@ -674,6 +696,8 @@ def check_durable_consistency(w, pid, res, step, after_fault):
                 if prob is None and (cnt, errv, errt, sum(ids)) != (d["cnt"], d["errv"], d["errt"], d["ids_sum"]):
                     prob = "stored sums (%s,%s,%s) are not the merge of the stored repetitions (%s,%s,%s)" % (
                         d["cnt"], d["errv"], d["errt"], cnt, errv, errt)
+                if prob is None and "hist" in d and d["hist"] != hist_sum(ids):
+                    prob = "stored array result %s is not the merge of the stored repetitions %s" % (d["hist"], hist_sum(ids))
             if prob:
                 add_violation(res, pid + ".durable_consistent", step,
                               "partial file of %s variation %d: %s" % (pname, v, prob),
@@ -905,6 +929,13 @@ def _check_completed(w, pid, res, k, inc, cfg, pname, pred, final_name, parts, s
                 add_violation(res, pid + ".merge", k, "variation %d: choice counts %s / total %s, the successful repetitions give %s / %d (loaded=%s)" % (
                     v, got_ch, chr_._total, want_ch, len(e["ids"]), e["loaded"]), dict(sig_f, loaded=e["loaded"], result="choice"))
                 return
+            if w.script.get("hist"):
+                got_h = [int(x) for x in np.asarray(results["hist"][v].get_result()).ravel()]
+                if got_h != hist_sum(e["ids"]) or results["hist"][v].num_updates != e["rep"]:
+                    add_violation(res, pid + ".merge", k, "variation %d: array-valued sum result %s (%d updates), the successful repetitions give %s (%d) (loaded=%s, buffer %s)" % (
+                        v, got_h, results["hist"][v].num_updates, hist_sum(e["ids"]), e["rep"], e["loaded"], w.script.get("hist")),
+                        dict(sig_f, loaded=e["loaded"], result="array"))
+                    return
     except (KeyError, IndexError, AttributeError) as ex:
         add_violation(res, pid + ".merge", k, "stored results unusable: %s: %s" % (type(ex).__name__, ex), sig_f)
         return
